@@ -714,7 +714,7 @@ def main():
         """at most n representatives of every kind of failure"""
         seen = collections.Counter()
         for i, (prof, out, why) in d.items():
-            k = why.split(":")[0]
+            k = why.split(":")[0].split(" (operand supplied")[0]
             seen[k] += 1
             if seen[k] <= n:
                 yield i, prof, out, why
